@@ -15,7 +15,7 @@ class Run:
         return [l for l in self.out.split(b'\n') if ERR_RE.search(l) or WARN_RE.search(l)]
 
 
-def run_tool(tool, text, variant='plain', args=(), timeout=60, keep=False, fname='in.exp', env=None, cwd_sub=None, aslr=False):
+def run_tool(tool, text, variant='plain', args=(), timeout=60, keep=False, fname='in.exp', env=None, cwd_sub=None, aslr=False, extra_files=None):
     """text: str or bytes (EXPRESS source) or None with args naming an existing file"""
     d = drv.scratch_dir('exp')
     try:
@@ -31,6 +31,12 @@ def run_tool(tool, text, variant='plain', args=(), timeout=60, keep=False, fname
         e = dict(common.ASAN_ENV)
         if env:
             e.update(env)
+        if extra_files:
+            # further schema files of the same "library": next to the input, found through EXPRESS_PATH
+            for fn, tx in extra_files.items():
+                with open(os.path.join(d, fn), 'wb') as f:
+                    f.write(tx if isinstance(tx, bytes) else tx.encode('latin1'))
+            e['EXPRESS_PATH'] = d
         cmd = ([] if aslr else ['setarch', '-R']) + [exe] + list(args)   # fixed address-space layout unless the configuration asks otherwise
         if tool == 'exppp':
             cmd += ['-o', os.path.join(outdir, 'pp.exp')] if '-o' not in args else []
